@@ -478,6 +478,9 @@ func c13Caller() string {
 			name := f.Function[i+len("goawk/interp."):]
 			name = strings.TrimPrefix(name, "(*interp).")
 			name = strings.TrimPrefix(name, "(*Interpreter).")
+			if strings.HasPrefix(name, "(*syncWriter).") && more {
+				continue // the locking wrapper around the output writer: report who called it
+			}
 			return name
 		}
 		if !more {
